@@ -14,6 +14,10 @@ static ABT_unit my_pop(ABT_pool p) { n_pop++; if (popq_i < popq_n) return popq[p
 static size_t my_getsize(ABT_pool p) { n_getsize++; return oldsize; }
 /* unit -> work unit: the map of the real library (C14 unit map units) by a stub */
 ABTI_thread *ABTI_unit_get_thread_from_user_defined_unit(ABTI_global *g, ABT_unit u) { for (int i = 0; i < 3; i++) if (u == U(i)) return &th[i]; __CPROVER_assert(0, "only live units are translated"); return NULL; }
+/* re-association by stub: a NEW unit is created for the destination pool (as for a user-defined pool) */
+static int n_assoc, assoc_fail_at; int ABTI_thread_set_associated_pool(ABTI_global *g, ABTI_thread *t, ABTI_pool *p) { n_assoc++; if (n_assoc == assoc_fail_at) return ABT_ERR_MEM; t->p_pool = p; t->unit = (ABT_unit)((uintptr_t)t->unit + 0x100000); return ABT_SUCCESS; }
+static int n_pm; static ABT_unit pm_units[4]; static size_t pm_n; static void my_push_many(ABT_pool p, const ABT_unit *u, size_t n, ABT_pool_context c) { n_pm++; pm_n = n; for (size_t i = 0; i < 4; i++) if (i < n) pm_units[i] = u[i]; }
+static int n_p1; static ABT_unit p1_unit; static void my_push1(ABT_pool p, ABT_unit u, ABT_pool_context c) { n_p1++; p1_unit = u; }
 #include <pool/pool.c>
 static void setup(void) { gp_ABTI_global = &glob; n_ucreate = n_ufree = n_push = n_pop = n_getsize = 0; popq_i = 0; pool.old_def.u_create_from_thread = my_ucreate; pool.old_def.u_free = my_ufree; pool.old_def.p_push = my_push; pool.old_def.p_pop = my_pop; pool.old_def.p_get_size = my_getsize; }
 void h_legacy_wrappers(void)
@@ -52,4 +56,22 @@ void h_legacy_def(void)
     VF_ASSERT(rd.p_create_unit == pool_create_unit_wrapper && rd.p_free_unit == pool_free_unit_wrapper && rd.p_is_empty == pool_is_empty_wrapper && rd.p_pop == pool_pop_wrapper && rd.p_push == pool_push_wrapper, "each required operation gets the adapter of THAT operation");
     VF_ASSERT(opt.p_get_size == pool_get_size_wrapper && opt.p_pop_many == pool_pop_many_wrapper && opt.p_push_many == pool_push_many_wrapper && (opt.p_init != NULL) == (def.p_init != NULL) && (opt.p_free != NULL) == (def.p_free != NULL), "optional operations: adapters iff the user supplied the function");
     VF_REACH("legacy def");
+}
+/* ABT_pool_push_thread(s): each work unit is first associated with the destination pool, and the unit pushed is the one it has AFTER that */
+void h_pool_push_api(void)
+{
+    setup(); n_assoc = 0; n_pm = n_p1 = 0; { int f; assoc_fail_at = f; } VF_ASSUME(0 <= assoc_fail_at && assoc_fail_at <= 3);
+    static ABTI_pool dst; dst.optional_def.p_push_many = my_push_many; dst.required_def.p_push = my_push1;
+    ABT_thread list[3]; int nz[3]; size_t n; VF_ASSUME(n <= 3); for (int i = 0; i < 3; i++) { int c; nz[i] = !!c; th[i].unit = U(i); th[i].p_pool = &pool; list[i] = nz[i] ? (ABT_thread)&th[i] : ABT_THREAD_NULL; }
+    int r = ABT_pool_push_threads((ABT_pool)&dst, list, n);
+    size_t cnt = 0; for (size_t i = 0; i < 3; i++) if (i < n && nz[i]) cnt++;
+    if (r == ABT_SUCCESS) {
+        VF_ASSERT((size_t)n_assoc == cnt && n_pm == (cnt ? 1 : 0) && (!cnt || pm_n == cnt), "every non-NULL work unit is associated with the destination once; one batch of that many units");
+        size_t k = 0; for (size_t i = 0; i < 3; i++) if (i < n && nz[i]) { VF_ASSERT(pm_units[k] == th[i].unit && th[i].unit != U(i) && th[i].p_pool == &dst, "the unit pushed is the work unit's CURRENT unit (the one created for the destination), in list order"); k++; }
+    } else VF_ASSERT(r == ABT_ERR_MEM && n_pm == 0, "an association failure is reported and nothing is pushed");
+    /* single push */
+    n_assoc = 0; assoc_fail_at = 0; th[0].unit = U(0);
+    VF_ASSERT(ABT_pool_push_thread((ABT_pool)&dst, (ABT_thread)&th[0]) == ABT_SUCCESS && n_assoc == 1 && n_p1 == 1 && p1_unit == th[0].unit && th[0].unit != U(0), "ABT_pool_push_thread: associate, then push the current unit");
+    VF_ASSERT(ABT_pool_push_threads(ABT_POOL_NULL, list, n) == ABT_ERR_INV_POOL && ABT_pool_push_thread(ABT_POOL_NULL, (ABT_thread)&th[0]) == ABT_ERR_INV_POOL, "NULL pool rejected");
+    VF_REACH("pool_push_api"); VF_COVER(r == ABT_SUCCESS && cnt == 3, "three pushed"); VF_COVER(r != ABT_SUCCESS, "association failed");
 }
